@@ -69,4 +69,40 @@ EveryValueInOneBin(v, bt, ths) ==
   (bt = "within=" /\ StrictlyIncreasing(ths)) =>
      \A k \in DOMAIN v : (Gt(v[k], ths[1]) /\ Le(v[k], ths[Len(ths)])) => Cardinality({j \in DOMAIN Intervals(bt, ths) : In(Intervals(bt, ths)[j], v[k])}) = 1
 OneSeriesPerInput(ss, n, extra) == Len(ss) = n + extra
+
+---------------------------------------------------------------------------
+(* second tranche: diagrams of probabilistic forecasts.  pe = sequence of <<p, e>> (event probability, outcome 0/1) of the *)
+(* common valid cases of one input; edges = increasing sequence of bin edges; bins are [e_k, e_k+1), the last one also      *)
+(* containing its upper edge (closedLast) -- every probability in [0, 1] then lies in exactly one bin.                      *)
+BinOf(p, edges, closedLast) ==
+  IF \E k \in 1..(Len(edges) - 1) : Ge(p, edges[k]) /\ Lt(p, edges[k + 1]) THEN CHOOSE k \in 1..(Len(edges) - 1) : Ge(p, edges[k]) /\ Lt(p, edges[k + 1])
+  ELSE IF closedLast /\ p = edges[Len(edges)] THEN Len(edges) - 1 ELSE 0
+InBinIdx(pe, edges, closedLast, b) == SelectSeq([k \in DOMAIN pe |-> k], LAMBDA k : BinOf(pe[k][1], edges, closedLast) = b)
+EveryCaseInOneBin(pe, edges) == \A k \in DOMAIN pe : (Ge(pe[k][1], edges[1]) /\ Le(pe[k][1], edges[Len(edges)])) => BinOf(pe[k][1], edges, TRUE) \in 1..(Len(edges) - 1)
+RelEdges == <<Zero>> \o [k \in 1..10 |-> Frac(2 * k - 1, 20)] \o <<One>>            \* 0, 0.05, 0.15, ..., 0.95, 1
+TenBins == [k \in 1..11 |-> Frac(k - 1, 10)]
+\* reliability: per bin the mean forecast probability against the observed frequency; bins with fewer than minCount cases are not drawn
+ReliabilityXY(pe, minCount, closedLast) ==
+  LET nb == Len(RelEdges) - 1
+      idx(b) == InBinIdx(pe, RelEdges, closedLast, b)
+  IN  [x |-> [b \in 1..nb |-> IF Len(idx(b)) >= minCount THEN Q(MeanSeq([m \in DOMAIN idx(b) |-> pe[idx(b)[m]][1]])) ELSE AnyE],
+       y |-> [b \in 1..nb |-> IF Len(idx(b)) >= minCount THEN Q(MeanSeq([m \in DOMAIN idx(b) |-> pe[idx(b)[m]][2]])) ELSE NaNE]]
+\* discrimination: percentage of the event cases (and of the non-event cases) whose forecast probability lies in each of ten bins
+DiscriminationY(pe, outcome, closedLast) ==
+  LET sel == SelectSeq(pe, LAMBDA x : x[2] = outcome) IN
+  [b \in 1..10 |-> IF sel = <<>> THEN NaNE ELSE Q(Frac(100 * Len(InBinIdx(sel, TenBins, closedLast, b)), Len(sel)))]
+\* ROC: (false alarm rate, hit rate) when the event is forecast whenever p >= level, for the levels 0, 0.1, ..., 1, between (1,1) and (0,0)
+RocXY(pe) ==
+  LET lev(k) == Frac(k - 1, 10)
+      a(k) == Cardinality({m \in DOMAIN pe : Ge(pe[m][1], lev(k)) /\ pe[m][2] = One})
+      b(k) == Cardinality({m \in DOMAIN pe : Ge(pe[m][1], lev(k)) /\ pe[m][2] = Zero})
+      nev == Cardinality({m \in DOMAIN pe : pe[m][2] = One})  nno == Cardinality({m \in DOMAIN pe : pe[m][2] = Zero})
+      ok == nev > 0 /\ nno > 0
+  IN  [x |-> <<Q(One)>> \o [k \in 1..11 |-> IF ok THEN Q(Frac(b(k), nno)) ELSE NaNE] \o <<Q(Zero)>>,
+       y |-> <<Q(One)>> \o [k \in 1..11 |-> IF ok THEN Q(Frac(a(k), nev)) ELSE NaNE] \o <<Q(Zero)>>]
+\* PIT histogram: percentage of the PIT values in each of ten bins (last closed)
+PitHistY(pit) == [b \in 1..10 |-> IF pit = <<>> THEN NaNE ELSE Q(Frac(100 * Cardinality({k \in DOMAIN pit : ProbBin(pit[k]) = b}), Len(pit)))]
+\* marginal: mean event probability per threshold, and the observed frequency of the event
+MarginalY(peByThreshold) == [t \in DOMAIN peByThreshold |-> IF peByThreshold[t] = <<>> THEN NaNE ELSE Q(MeanSeq(PP(peByThreshold[t])))]
+MarginalObsY(peByThreshold) == [t \in DOMAIN peByThreshold |-> IF peByThreshold[t] = <<>> THEN NaNE ELSE Q(MeanSeq(EE(peByThreshold[t])))]
 =============================================================================
